@@ -221,6 +221,8 @@ def to_model(element: model.ContentElement, is_teletext: bool, tti_cct: bytes, t
 
   is_line_started = False
 
+  is_diacritic_pending = False
+
   while True:
 
     c = tf_iter.cur()
@@ -241,9 +243,17 @@ def to_model(element: model.ContentElement, is_teletext: bool, tti_cct: bytes, t
         is_space_pending = False
         is_line_started = True
 
+      elif is_diacritic_pending:
+
+        # in ISO 6937, a non-spacing diacritical mark followed by a space is the spacing form of the mark
+
+        context.append_character(c)
+
       else:
 
         is_space_pending = True
+
+      is_diacritic_pending = decode_func is iso6937.decode and 0xC1 <= c <= 0xCF and not is_diacritic_pending
 
     elif _is_newline_code(c):
       if not _is_newline_code(tf_iter.peek_next()) and not _is_unused_space_code(tf_iter.peek_next()):
@@ -254,9 +264,11 @@ def to_model(element: model.ContentElement, is_teletext: bool, tti_cct: bytes, t
 
       is_space_pending = False
       is_line_started = False
+      is_diacritic_pending = False
 
     elif _is_control_code(c):
       context.end_span()
+      is_diacritic_pending = False
 
       if c == 0x1C:
         context.set_bg_color(styles.NamedColors.black.value)
